@@ -1,5 +1,5 @@
 (** src/lib.rs : derive_input_handler *)
-From Educe.Model Require Export Expand_PartialEq Expand_Eq Expand_Hash Expand_Clone Expand_Copy Expand_Debug Expand_PartialOrd Expand_Ord Expand_Default.
+From Educe.Model Require Export Expand_PartialEq Expand_Eq Expand_Hash Expand_Clone Expand_Copy Expand_Debug Expand_PartialOrd Expand_Ord Expand_Default Expand_Deref Expand_DerefMut Expand_Into.
 
 Definition tmap := list (trait * list meta).
 
@@ -48,8 +48,8 @@ Definition handlers : list (trait * handler) :=
    (TOrd, expand_ord);
    (THash, expand_hash);
    (TDefault, expand_default);
-   (TDeref, not_modelled "Deref");
-   (TDerefMut, not_modelled "DerefMut")].
+   (TDeref, expand_deref);
+   (TDerefMut, expand_deref_mut)].
 
 Definition run_handler (F : features) (traits : list trait) (d : dinput) (tm : tmap)
            (acc : list item) (th : trait * handler) : outcome (list item) :=
@@ -66,10 +66,31 @@ Definition expand (F : features) (d : dinput) : outcome (list item) :=
   let traits := map fst tm in
   let* its := foldM (run_handler F traits d tm) [] handlers in
   let* its := (match tmap_get TInto tm with
-               | Some ms => if has_trait TInto F then OutOfDomain "Into" else Ok its
+               | Some ms => if has_trait TInto F
+                            then let* l := expand_into F traits d ms in Ok (its ++ l)
+                            else Ok its
                | None => Ok its
                end) in
   if is_nil its then Err E_not_set_up else Ok its.
+
+(** The Into handler iterates a HashMap of targets: when several targets fail,
+    the real macro reports the error of whichever comes first in that run.
+    [expand_alt_errs] lists the errors of all failing targets (empty unless
+    [expand] fails inside that loop). *)
+Definition expand_alt_errs (F : features) (d : dinput) : list err :=
+  match foldM (collect_attr F) [] (d_attrs d) with
+  | Ok tm =>
+      let traits := map fst tm in
+      match foldM (run_handler F traits d tm) [] handlers with
+      | Ok _ =>
+          match tmap_get TInto tm with
+          | Some ms => if has_trait TInto F then into_alt_errs F traits d ms else []
+          | None => []
+          end
+      | _ => []
+      end
+  | _ => []
+  end.
 
 Definition expand_flat (F : features) (d : dinput) : outcome (list string) :=
   let* its := expand F d in Ok (flat (items_toks its)).
